@@ -87,6 +87,8 @@ fn main() {
         ("C05", Some(p)) => props::c05::replay(&p),
         ("C06", None) => props::c06::run(&ctx),
         ("C06", Some(p)) => props::c06::replay(&p),
+        ("C07", None) => props::c07::run(&ctx),
+        ("C07", Some(p)) => props::c07::replay(&p),
         ("C08", None) => props::c08::run(&ctx),
         ("C08", Some(p)) => props::c08::replay(&p),
         ("C09", None) => props::c09::run(&ctx),
